@@ -103,12 +103,14 @@ TypeOf(x, C, P) ==
     [] e = "asg" -> IF x.x \in DOMAIN C.G /\ C.G[x.x].asg /\ Fits(TypeOf(x.v, C, P), C.G[x.x].t) THEN C.G[x.x].t ELSE ERR
     [] e = "let" -> IF Fits(TypeOf(x.v, C, P), x.t) THEN TypeOf(x.body, BindV(C, x.x, x.t, TRUE), P) ELSE ERR
     \* overloading: the functions that share the called function's Aldor name are the candidates; the call is
-    \* well typed iff exactly one candidate accepts the argument types (Resolve), and it is the intended one
+    \* well typed iff exactly one candidate accepts the argument types (Resolve)
     [] e = "call" ->
          IF x.fi \in 1..Len(P.funs)
          THEN LET ts == TypesOf(x.args, C, P)
                   cands == {j \in 1..Len(P.funs) : P.funs[j].oname = P.funs[x.fi].oname /\ AllFit(ts, P.funs[j].pts)}
-              IN IF cands = {x.fi} THEN P.funs[x.fi].rt ELSE ERR
+              \* (a mutated call may legitimately resolve to another function of the same name: its type is
+              \* that function's result type and the context decides)
+              IN IF Cardinality(cands) = 1 THEN P.funs[CHOOSE j \in cands : TRUE].rt ELSE ERR
          ELSE ERR
     [] e = "callv" ->
          LET f == TypeOf(x.f, C, P) IN
